@@ -100,12 +100,13 @@ def build(tier, seed):
         what="both threads obtain exactly the widths they obtain alone, wherever the other thread's measurement falls"))
     if not quick:
         for path, name in PATHS:
+          for lo, hi in chunks:
             obs.append(Ob(
-                oid="O2.two_preemptions." + name, sig="u0: bool, u1: bool, u2: bool, b0: bool, b1: bool, b2: bool, k1: int, k2: int",
-                pre=["0 <= k1 <= k2 <= 40"], header=HDRC, timeout=T,
+                oid="O2.two_preemptions.%s.k%d_%d" % (name, lo, hi), sig="b0: bool, b1: bool, b2: bool, k1: int, k2: int",
+                pre=["%d <= k1 <= %d" % (lo, hi), "k1 <= k2 <= 24"], header=HDRC, timeout=T,
                 body=r'''
     def body():
-        used = [n for n, u in zip(NAMES, (u0, u1, u2)) if u]
+        used = list(NAMES)
         other = [n for n, f in zip(NAMES, (b0, b1, b2)) if f]
         where = [1] * len(used)
         alone = run_encode(%d, used, where)
@@ -118,7 +119,8 @@ def build(tier, seed):
     return with_tables([2, 3, 1], False, body)
 ''' % (path, path),
                 funcs=F_COLOR + ["rtflite.encoding.unified_encoder:UnifiedRTFEncoder.encode"], stubs=STUB_COLOR,
-                bounds="2 threads, TWO preemptions k1 <= k2 (B sets its context at k1 and clears it at k2); %s path" % name,
+                bounds="2 threads, TWO preemptions %d <= k1 <= %d, k1 <= k2 <= 24 (B sets its context at k1 and clears it at k2), B's palette an "
+                       "arbitrary subset of 3 colours, A uses all 3; %s path" % (lo, hi, name),
                 what="as O1 with thread B's encode spanning a window of thread A's encode"))
     meta = {
         "explanation": "Other threads are modelled as a nondeterministic environment acting on the shared state through the same "
